@@ -89,6 +89,14 @@ def r1(run: Run, src):
               f'stands for', fact='iter_rows() without bounds', loc=loc_of(fi.module.path, it))
     resets = [n for n in ast.walk(sheet_loop) if isinstance(n, ast.Call) and isinstance(n.func, ast.Attribute) and
               n.func.attr == 'reset_dimensions']
+    if len(resets) == 1:
+        from .common import flat_conditions
+        pr_ = parent_map(fi.node)
+        rc_ = [c for c in flat_conditions(path_conditions(fi.node, resets[0], pr_)) if any(c[0] is x for x in ast.walk(sheet_loop))]
+        run.check(not rc_, 'C18.R1', 'Excel.parse/reset_dimensions/unconditional', 'conditional-reset',
+                  f'reset_dimensions() only runs when `{" and ".join(("" if pol else "not ") + ast.unparse(t)[:60] for t, pol in rc_)}`: '
+                  f'a dimension record that is present but understates the used area is then trusted and the rows / columns beyond it '
+                  f'are never streamed', fact='reset for every worksheet', loc=loc_of(fi.module.path, resets[0]))
     run.check(len(resets) == 1 and resets[0].lineno < row_loop.lineno, 'C18.R1', 'Excel.parse/reset_dimensions', 'no-reset',
               'reset_dimensions() is not called before the rows are read: a stale dimension record in the file shifts or truncates the '
               'streamed rows', fact='reset before reading', loc=loc_of(fi.module.path, sheet_loop))
